@@ -440,11 +440,18 @@ package server
 //@ func (*metadataAPI).checkShrinkISRPreconditions serves C07
 //@   requires m != nil && op != nil && op.ShrinkISROp != nil
 //@   ghost at entry: ghost.fencedUnderLock := false
+//@   ensures [the-leader-stays-in-the-in-sync-set] result == nil ==> op.ShrinkISROp.ReplicaToRemove != op.ShrinkISROp.Leader
 //@   ghost after call checkLeaderGeneration: ghost.fencedUnderLock := ret0 == nil && arg1 == op.ShrinkISROp.Stream && arg2 == op.ShrinkISROp.Partition && arg3 == op.ShrinkISROp.Leader && arg4 == op.ShrinkISROp.LeaderEpoch
 //@   ensures [stale-request-refused-under-the-proposal-lock] result == nil ==> ghost.fencedUnderLock
+//@ ghost var addedIsReplica bool
 //@ func (*metadataAPI).checkExpandISRPreconditions serves C07
 //@   requires m != nil && op != nil && op.ExpandISROp != nil
 //@   ghost at entry: ghost.fencedUnderLock := false
+//@   ghost at entry: ghost.addedIsReplica := false
+//@   ghost at entry: ghost.lockedPartition := nil
+//@   ghost after call GetPartition: ghost.lockedPartition := (arg1 == op.ExpandISROp.Stream && arg2 == op.ExpandISROp.Partition ? ret0 : nil)
+//@   ghost after call inReplicas: ghost.addedIsReplica := arg0 == ghost.lockedPartition && arg0 != nil && arg1 == op.ExpandISROp.ReplicaToAdd && ret0
+//@   ensures [only-a-replica-joins-the-in-sync-set] result == nil ==> ghost.addedIsReplica
 //@   ghost after call checkLeaderGeneration: ghost.fencedUnderLock := ret0 == nil && arg1 == op.ExpandISROp.Stream && arg2 == op.ExpandISROp.Partition && arg3 == op.ExpandISROp.Leader && arg4 == op.ExpandISROp.LeaderEpoch
 //@   ensures [stale-request-refused-under-the-proposal-lock] result == nil ==> ghost.fencedUnderLock
 //@ func (*metadataAPI).checkChangeLeaderPreconditions serves C07
